@@ -16,13 +16,6 @@ Inductive case :=
   (* enc = Path{p, t}.Encode(f); o = Decode(f, enc) *)
 | Round (loff : Z) (f p : list Z) (unix ns off : Z) (enc : list Z) (o : dres).
 
-Fixpoint bytes_eqb (a b : list Z) : bool :=
-  match a, b with
-  | [], [] => true
-  | x :: a', y :: b' => (x =? y) && bytes_eqb a' b'
-  | _, _ => false
-  end.
-
 Definition dres_eqb (a b : dres) : bool :=
   match a, b with
   | None, None => true
